@@ -35,7 +35,8 @@ type queryEvent struct {
 	sub     *nats.Subscription
 	ch      chan *nats.Msg
 	cb      func(r QueryRequest)
-	expired bool // Flag set once cb has been called with nil. Only accessed from the resource's worker group.
+	done    chan struct{} // Closed when the query event has expired, to stop the listener.
+	expired bool          // Flag set once cb has been called with nil. Only accessed from the resource's worker group.
 }
 
 // Model sends a model response for the query request.
@@ -131,11 +132,17 @@ func (qr *queryRequest) Timeout(d time.Duration) {
 
 // startQueryListener listens for query requests and passes them on to a worker.
 func (qe *queryEvent) startQueryListener() {
-	for m := range qe.ch {
-		m := m
-		qe.r.s.runWith(qe.r.Group(), func() {
-			qe.handleQueryRequest(m)
-		})
+	for {
+		select {
+		case m := <-qe.ch:
+			qe.r.s.runWith(qe.r.Group(), func() {
+				qe.handleQueryRequest(m)
+			})
+		case <-qe.done:
+			// The subscription channel is never closed by NATS.
+			// Stop listening once the query event has expired.
+			return
+		}
 	}
 }
 
